@@ -44,7 +44,7 @@ def run(chk: Check, model):
     fi, ev, r = _ev(model, "base.StaticDist.sample")
     chk.used(fi.qualname)
     ret = r.ret
-    split = T.mk_call("jax.random.split", [S("self.rng"), T.const(2)])
+    split = T.mk_call("jax.random.split", [S("self.rng")], [("num", T.const(2))])
     def _leaves(t):
         if t[0] == "ite":
             return _leaves(t[2]) + _leaves(t[3])
